@@ -50,7 +50,7 @@ def resolve(c, m, z, n):
 def run(ctx):
     ctx.level = "proof"
     have_props = os.path.exists(os.path.join(vlib.COQ, "Properties_C01.v"))
-    proved = vlib.prove(ctx, ["Properties_C01.v"], facts=["cred", "base64"]) if have_props else False
+    proved = vlib.prove(ctx, ["Properties_C01.v", "Properties_C01_lib.v"], facts=["cred", "base64", "libfun"]) if have_props else False
     ctx.log("proofs:", "ok" if proved else "BROKEN/absent: " + getattr(ctx, "broken_obligation", "Properties_C01.v"))
     ctx.cov["rule"] = ("cases = payload size in {0,1,7,8,9,15,16,17,23,24,25,47,48,49,255,256,257,...,64 KiB, ~780 KiB} x content "
                        "{zeros,text,random,compressed} x cipher {none,default,blowfish,cast5,aes128,aes256} x MAC {default,md5,sha1,"
@@ -381,7 +381,8 @@ def run(ctx):
         if k in seen:
             continue
         seen.add(k)
-        ctx.violation(f["why"], f, found_input=True)
+        ctx.violation(f["why"] + ("" if proved else "  [and the proof obligation no longer checks: %s]"
+                                 % getattr(ctx, "broken_obligation", "?")), f, found_input=True)
     if not fails and mism:
         ctx.violation("model and daemon disagree on %d cases (first: %s %s); the property evaluated directly holds on all cases"
                       % (len(mism), mism[0]["op"], mism[0]["diff"]), {"obligation": "correspondence CredModel ~ munged (C01)", "first": mism[0]},
